@@ -216,6 +216,11 @@ def run_functions(case):
         "1/(z+1)": lambda z: 1 / (z + 1),
         "sqrt(z+2)": lambda z: sympy.sqrt(z + 2),
         "(z+1)**-2": lambda z: (z + 1) ** -2,
+        # sign-sensitive functions (the number operator of a ladder mode takes negative values)
+        "abs: (z**2)**(1/2)": lambda z: sympy.sqrt(z**2),
+        "abs: Abs(z - 2)": lambda z: sympy.Abs(z - 2),
+        "abs: x (1 + (z**2)**(1/2)) x+ + h.c.": lambda z: x0 * (1 + sympy.sqrt(z**2)) * Dagger(x0) + Dagger(x0) * (1 + sympy.sqrt(z**2)) * x0,
+        "abs: ((z - 1)**2)**(1/2) x + h.c.": lambda z: sympy.sqrt((z - 1) ** 2) * x0 + Dagger(x0) * sympy.sqrt((z - 1) ** 2),
         "x exp(-z/4) x+": lambda z: x0 * sympy.exp(-z / 4) * Dagger(x0),
         "exp(-z/4) x + h.c.": lambda z: sympy.exp(-z / 4) * x0 + Dagger(x0) * sympy.exp(-z / 4),
     }
@@ -226,10 +231,10 @@ def run_functions(case):
         for fn, f in functions.items():
             if case["mode"] == "l" and fn.startswith("sqrt"):
                 continue  # ladder levels are negative too: the real square root of the numeric model is undefined there
-            expr = f(z)
             try:
+                expr = f(z)  # sympy itself cannot build some functions of operator products (it recurses)
                 want = sp.expr_matrix(expr)
-            except (ValueError, TypeError):
+            except (ValueError, TypeError, RecursionError):
                 continue
             if not np.isfinite(want[:, sp.interior([3], [3])]).all():
                 continue  # the function has a pole on this mode's spectrum (ladder levels extend to negative integers)
